@@ -208,6 +208,8 @@ FindMax == /\ Idle /\ lastOp' = Op("max", 0, 0, IF tree = Nil THEN 0 ELSE K(MaxN
            /\ UNCHANGED <<tree, ttid, cur, out, mode, unfinished, bad>>
 SizeOp == /\ Idle /\ lastOp' = Op("size", 0, 0, Count(tree))
           /\ UNCHANGED <<tree, ttid, cur, out, mode, unfinished, bad>>
+Debug == /\ Idle /\ lastOp' = Op("debug", 0, 0, 1)             \* printing the tree changes nothing
+         /\ UNCHANGED <<tree, ttid, cur, out, mode, unfinished, bad>>
 Clear == /\ Idle /\ tree' = Nil /\ lastOp' = Op("clear", 0, 0, 0)
          /\ UNCHANGED <<ttid, cur, out, mode, unfinished, bad>>
 \* one getnext call; at the end of a walk its output is compared with the sorted contents (C03) or,
@@ -243,7 +245,7 @@ Nearest(p, cont) ==
         /\ UNCHANGED <<ttid, unfinished>>
 Next == \/ \E k \in Keys, v \in Vals : Put(k, v)
         \/ \E k \in Keys : Remove(k) \/ Get(k)
-        \/ FindMin \/ FindMax \/ SizeOp \/ Clear
+        \/ FindMin \/ FindMax \/ SizeOp \/ Clear \/ Debug
         \/ (WithIter /\ (GetNext \/ Abandon \/ \E p \in 0..(MaxKey + 1), c \in 0..1 : Nearest(p, c)))
 Spec == Init /\ [][Next]_vars
 
